@@ -4,7 +4,8 @@ Decided (enclosure, structural half): in _populate_face_latlon_bound, on every p
 and each extreme latitude of the edge is inserted or stated (by the path condition) to coincide with an endpoint latitude, or forced by the pole store on the correct side; every inserted point is [lat, lon] in that order;
 a pole strictly inside the face forces the full longitude circle.  In extreme_gca_latitude every return is max/min over a set containing both endpoint latitudes, and the interior candidate is proven
 (exact polynomial identity) to be the stationary point of the latitude along the chord interpolation the code actually uses.
-The test that lets an extreme coincide with a corner latitude is an absolute comparison at the library's tolerance (not numpy's default rtol); units along the bounds pipeline (degrees vs radians, also across the arms of a branch); no squared length is compared with a length tolerance."""
+The test that lets an extreme coincide with a corner latitude is an absolute comparison at the library's tolerance (not numpy's default rtol); units along the bounds pipeline (degrees vs radians, also across the arms of a branch); no squared length is compared with a length tolerance.
+The isclose/allclose wrappers forward rtol and atol unchanged; library tolerances keep the pinned values."""
 
 import ast
 
